@@ -240,6 +240,10 @@ def _published_rule(out, res, tier, seed):
         if m["kind"] != "outcome":
             continue
         o, e = m["observed"], m["expected"]
+        if not _is_unknown_call(m):
+            out.drift.append("outcome of a defined operator in the unknown profile (not a clause of C09): op=%s flags=%s observed=%s expected=%s" % (
+                m["op"], m["flags"], json.dumps(o)[:120], json.dumps(e)[:120]))
+            continue
         desc = "published rule: op=%s flags=%s args=%s observed=%s expected=%s" % (m["op"], m["flags"], json.dumps(m["args"])[:160], json.dumps(o)[:160], json.dumps(e)[:160])
         v = C.Violation("C09", desc, {"mismatch": m})
         # F4 class, computed from the input: old cost model, observed success, published rule says Invalid (product >= 2^32)
